@@ -783,6 +783,10 @@ impl<'a> Parser<'a> {
         let verif_oldflags = self.flags;
         // get the character after the open paren
         let b = bytes[ix];
+        // `(?(1)..)`, `(?('name')..)` and `(?(<name>)..)` test whether the group has matched; any
+        // other condition (including an explicit backreference like `\1`) is an expression that
+        // is tried at the current position
+        let is_group_condition = is_digit(b) || b == b'\'' || b == b'<';
         let (mut next, condition) = if is_digit(b) {
             self.parse_numbered_backref(ix, &|group| Expr::Backref(group))?
         } else if b == b'\'' {
@@ -817,7 +821,7 @@ impl<'a> Parser<'a> {
         }
         if end == next {
             // Backreference validity checker
-            if let Expr::Backref(group) = condition {
+            if let (true, &Expr::Backref(group)) = (is_group_condition, &condition) {
                 let after = self.check_for_close_paren(end)?;
                 return Ok((after, Expr::BackrefExistsCondition(group)));
             } else {
@@ -829,10 +833,9 @@ impl<'a> Parser<'a> {
                 ));
             }
         }
-        let inner_condition = if let Expr::Backref(group) = condition {
-            Expr::BackrefExistsCondition(group)
-        } else {
-            condition
+        let inner_condition = match condition {
+            Expr::Backref(group) if is_group_condition => Expr::BackrefExistsCondition(group),
+            condition => condition,
         };
 
         let after = self.check_for_close_paren(end)?;
